@@ -198,6 +198,13 @@ def expandDual (a : Arr R) (axis : Nat) (dual : Option Bool) : Bool :=
     else if axis < a.ndim then (a.indices.getD axis default).dual
     else false
 
+/-- a sub-table of a well-formed sign table is well formed (`_map_blocks` keeps only the entries
+    of stored blocks) -/
+theorem phasesOk_filter {sym : Sym} {idx : List Index} {ch : Charge} {ph : List (Sector × Int)}
+    (p : Sector × Int → Bool) (h : PhasesOk sym idx ch ph) : PhasesOk sym idx ch (ph.filter p) :=
+  ⟨List.Nodup.sublist (List.Sublist.map _ List.filter_sublist) h.1,
+   fun sp hsp => h.2 sp (List.mem_filter.mp hsp).1⟩
+
 /-- `expand_dims` with the inserted charge, direction and new total charge made explicit -/
 def expandWith (a : Arr R) (axis : Nat) (c : Charge) (d : Bool) (newCharge : Charge) : Arr R :=
   let a' := a.mapBlocks (fun s => s.take axis ++ [c] ++ s.drop axis) (fun b => b.expandK axis)
@@ -256,7 +263,8 @@ theorem expandWith_valid (a : Arr R) (axis : Nat) (c : Charge) (d : Bool) (newCh
     · rename_i hf
       simp only [hf, if_true] at hs ⊢
       refine ⟨?_, ?_⟩
-      · have := phasesOk_adict_map (fun s => s.take axis ++ [c] ++ s.drop axis) hs.1 hsec
+      · have := phasesOk_adict_map (fun s => s.take axis ++ [c] ++ s.drop axis)
+          (phasesOk_filter (fun sp => (alookup a.blocks sp.1).isSome) hs.1) hsec
         exact this
       · show ((a.oddpos.length % 2 == 1) = a.sym.parity newCharge)
         rcases hpar with h | h
@@ -500,12 +508,17 @@ theorem squeeze_rekey {sym : Sym} {idx : List Index} {ch : Charge} {axis : Optio
     exact (hdrop p hp hq).2
 
 /-- every key of the pending-sign table has its charges in the index tables (true whenever the
-    keys are stored sectors) -/
+    keys are stored sectors).  Since the repair of `FermionicArray._map_blocks` (only the entries
+    of stored blocks are re-keyed) no theorem needs this predicate any more; it is kept because it
+    still describes the arrays the library builds by itself. -/
 def phaseKeysInTablesB (a : Arr R) : Bool :=
   a.phases.all (fun sp => (Arr.blockShape? a.indices sp.1).isSome)
 
-theorem squeeze_valid (a : Arr R) (axis : Option (List Nat)) (r : Arr R) (hv : Valid a)
-    (hph : phaseKeysInTablesB a = true) (h : a.squeeze axis = .ok r) : Valid r := by
+/-- **`squeeze` preserves validity, whatever the sign table holds**: entries of the sign table
+    whose sector has no block (left behind by an operation that dropped blocks) are discarded by
+    `_map_blocks`, the others are re-keyed together with their block. -/
+theorem squeeze_valid_any_phases (a : Arr R) (axis : Option (List Nat)) (r : Arr R) (hv : Valid a)
+    (h : a.squeeze axis = .ok r) : Valid r := by
   obtain ⟨keep, hinv, rfl⟩ := squeeze_inv a axis r h
   unfold Arr.mapBlocks
   refine ⟨fun i hi => hv.idx i (mem_permuted hi), hv.chg, adict_keys_nodup _, ?_, ?_⟩
@@ -525,12 +538,66 @@ theorem squeeze_valid (a : Arr R) (axis : Option (List Nat)) (r : Arr R) (hv : V
       refine ⟨⟨adict_keys_nodup _, ?_⟩, hs.2⟩
       intro sp hsp
       obtain ⟨⟨s, p⟩, h0, rfl⟩ := List.mem_map.mp (mem_adict hsp)
-      have hk := (List.all_eq_true.mp hph) (s, p) h0
-      obtain ⟨shp, hshp⟩ := Option.isSome_iff_exists.mp hk
+      obtain ⟨h0, hstored⟩ := List.mem_filter.mp h0
+      -- the entry belongs to a stored block, whose sector has a shape in the tables
+      obtain ⟨b, hb⟩ := Option.isSome_iff_exists.mp hstored
+      obtain ⟨_, hshp, _⟩ := hv.blk (s, b) (alookup_some_mem hb)
       exact ⟨(squeeze_rekey hv.idx hinv (hs.1.2 (s, p) h0).1 hshp).1, (hs.1.2 (s, p) h0).2⟩
     · rename_i hf
       simp only [hf] at hs ⊢
       exact hs
+
+theorem mem_keys_foldl_ainsert {κ β : Type} [BEq κ] [LawfulBEq κ] (ps acc : List (κ × β)) {k : κ}
+    (h : k ∈ acc.map (·.1) ∨ k ∈ ps.map (·.1)) :
+    k ∈ (ps.foldl (fun acc p => ainsert acc p.1 p.2) acc).map (·.1) := by
+  induction ps generalizing acc with
+  | nil => simpa using h
+  | cons p ps ih =>
+    simp only [List.foldl_cons]
+    apply ih
+    rw [ainsert_keys]
+    rcases h with h | h
+    · left; split
+      · exact h
+      · exact List.mem_append_left _ h
+    · rcases List.mem_cons.mp h with h | h
+      · left; subst h; split
+        · assumption
+        · simp
+      · right; exact h
+
+/-- every key of the argument is a key of `dict(pairs)` -/
+theorem mem_keys_adict_of_mem {κ β : Type} [BEq κ] [LawfulBEq κ] {ps : List (κ × β)} {k : κ}
+    (h : k ∈ ps.map (·.1)) : k ∈ (adict ps).map (·.1) :=
+  mem_keys_foldl_ainsert ps [] (Or.inr h)
+
+/-- `_map_blocks` on a fermionic array: every key of the new sign table is a key of the new
+    block dict -/
+theorem mapBlocks_phase_keys_stored (a : Arr R) (fs : Sector → Sector) (fb : Blk R → Blk R)
+    (hf : a.fermi = true) :
+    ∀ k ∈ (a.mapBlocks fs fb).phases.map (·.1), k ∈ (a.mapBlocks fs fb).blocks.map (·.1) := by
+  intro k hk
+  simp only [Arr.mapBlocks, hf, if_true] at hk ⊢
+  obtain ⟨⟨k', p⟩, hkp, rfl⟩ := List.mem_map.mp hk
+  obtain ⟨⟨s, p'⟩, h0, he⟩ := List.mem_map.mp (mem_adict hkp)
+  obtain ⟨_, hstored⟩ := List.mem_filter.mp h0
+  obtain ⟨b, hb⟩ := Option.isSome_iff_exists.mp hstored
+  have hk' : k' = fs s := (congrArg Prod.fst he).symm
+  subst hk'
+  apply mem_keys_adict_of_mem
+  exact List.mem_map.mpr ⟨(fs s, fb b), List.mem_map.mpr ⟨(s, b), alookup_some_mem hb, rfl⟩, rfl⟩
+
+/-- after `squeeze` no key of the sign table is stale -/
+theorem squeeze_phase_keys_stored (a : Arr R) (axis : Option (List Nat)) (r : Arr R)
+    (hf : a.fermi = true) (h : a.squeeze axis = .ok r) :
+    ∀ k ∈ r.phases.map (·.1), k ∈ r.sectors := by
+  obtain ⟨keep, _, rfl⟩ := squeeze_inv a axis r h
+  exact mapBlocks_phase_keys_stored a (fun s => permuted s keep) (fun b => b.squeezeK keep) hf
+
+/-- the form with the (now superfluous) hypothesis on the sign-table keys -/
+theorem squeeze_valid (a : Arr R) (axis : Option (List Nat)) (r : Arr R) (hv : Valid a)
+    (_hph : phaseKeysInTablesB a = true) (h : a.squeeze axis = .ok r) : Valid r :=
+  squeeze_valid_any_phases a axis r hv h
 
 end ValidP
 end SymmModel
